@@ -2,6 +2,9 @@
 """Regenerates MANIFEST.json from the table below (kept in one place so it stays valid)."""
 import json, subprocess
 CHECKS = {
+ "C19": dict(level="fault_enumeration", tech="fault enumeration over a simulated OS/RPC (ServiceControl / RpcActions implementations with a per-call fault plan) driving the real add_node, ServiceManager, refresh_node_registry and NodeRegistry save/load; state oracle after every operation",
+             text="For every sampled operation sequence the fault-free run counts the N control/RPC calls; every single fault placement (and 'start succeeds but the process dies') is executed, in thorough also every pair (complete for N <= 16). After each operation of each run the registry is compared with the simulated process table.",
+             note="SimOs/SimRpc model a well-behaved service manager plus injected failures; sequences are sampled, fault placements per sequence are enumerated; three signatures of one structural defect are known findings.", ref="DESIGN.md §4 C19"),
  "C11": dict(level="exploration", tech="independent reference metric (sha2 SHA-256 + big-endian XOR) compared with every closeness decision of the real code: distance conversion, peer sorting, range filters, closest-peer selection, replication candidates / close group / closest-K through a real driver with a filled routing table, store range counts and farthest record incl. after a real restart",
              text="Random and constructed address pairs of all six kinds (equal, typed vs raw-key, hashes sharing leading bytes) and peer sets of 0..K+1 are run through the real functions and compared with the integer metric; every 4th case builds a real node driver + store.",
              note="sha2 trusted; boundary distance == range not judged; 'too few known' read against the documented API (sort_peers errs below CLOSE_GROUP_SIZE).", ref="DESIGN.md §4 C11"),
